@@ -12,6 +12,16 @@ let n_to_int (n : n) : int = match n with N0 -> 0 | Npos p -> pos_to_int p
 let rec pos_of_int (i : int) : positive =
   if i = 1 then XH else if i land 1 = 0 then XO (pos_of_int (i lsr 1)) else XI (pos_of_int (i lsr 1))
 let z_of_int (i : int) : z = if i = 0 then Z0 else if i > 0 then Zpos (pos_of_int i) else Zneg (pos_of_int (- i))
+(* decimal string of any size (a count given to log -n may exceed OCaml's 63-bit int) *)
+let z_of_dec (s : Stdlib.String.t) : z =
+  let neg = Stdlib.String.length s > 0 && s.[0] = '-' in
+  let times10 x = let x2 = Z.add x x in let x4 = Z.add x2 x2 in Z.add (Z.add x4 x4) x2 in
+  let acc = ref Z0 in
+  Stdlib.String.iteri (fun i ch ->
+    if i = 0 && (ch = '-' || ch = '+') then ()
+    else if ch >= '0' && ch <= '9' then acc := Z.add (times10 !acc) (z_of_int (Stdlib.Char.code ch - 48))
+    else failwith ("driver: bad number: " ^ s)) s;
+  if neg then Z.opp !acc else !acc
 let z_to_int (x : z) : int = match x with Z0 -> 0 | Zpos p -> pos_to_int p | Zneg p -> - (pos_to_int p)
 let rec nat_to_int (n : nat) : int = match n with O -> 0 | S k -> 1 + nat_to_int k
 let rec nat_of_int (i : int) : nat = if i <= 0 then O else S (nat_of_int (i - 1))
@@ -117,7 +127,7 @@ let parse_cmd (toks : Stdlib.String.t list) : cmd =
   | "reset" :: s :: m :: h :: r -> CReset (flag s, flag m, flag h, args r)
   | "restore" :: st :: r -> CRestore (flag st, args r)
   | "update-ref" :: r -> CUpdateRef (args r)
-  | ["log"; n] -> CLog (z_of_int (int_of_string n))
+  | ["log"; n] -> CLog (z_of_dec n)
   | ["reflog"] -> CReflog
   | "cat-file" :: t :: p :: r -> CCatFile (flag t, flag p, args r)
   | "hash-object" :: r -> CHashObject (args r)
